@@ -921,6 +921,19 @@ def main():
                         info["dual"] = [dual_kind, S.opts_key(dual_opts)]
                         if not (d <= TOL_M):
                             ctx.violation("projections:%s->%s:value" % (tag, dual_kind), "%s: projections(dual %s %s) differ from M_ref c by %.3e" % (cid, dual_kind, S.opts_key(dual_opts), d), cid, data=data)
+                        # a query is pure: after it, the projections onto the function's own dual space (and a repeated query)
+                        # still agree with direct quadrature
+                        if (kind, kind) in all_pairs:
+                            got_own = np.asarray(gf.projections())
+                            want_own = ref_bilinear(R, Rs, Rs) @ c
+                            d_own = rel(got_own, want_own) if got_own.shape == want_own.shape else np.inf
+                            got_rep = np.asarray(gf.projections(dsp))
+                            d_rep = rel(got_rep, want) if got_rep.shape == want.shape else np.inf
+                            wmax("projections_after_query", max(d_own if np.isfinite(d_own) else 0.0, d_rep if np.isfinite(d_rep) else 0.0))
+                            seen["projection_sequences"] = seen.get("projection_sequences", 0) + 1
+                            if not (d_own <= TOL_M) or not (d_rep <= TOL_M):
+                                ctx.violation("projections:%s:after_query_of_other_dual" % tag, "%s: after projections(dual %s) the function's own projections() differ from M_ref c by %.3e "
+                                              "and the repeated query by %.3e" % (cid, dual_kind, d_own, d_rep), cid, data=data)
             # pointwise evaluation (support and non-support elements)
             els = list(rng.choice(g.ne, size=min(4, g.ne), replace=False))
             outside = np.flatnonzero(~Rs.sup)
